@@ -264,6 +264,13 @@ printf("debug> #if eval_operation() @EOL  n=%d precedence=%d state=%d\n", n, pre
           else
         if (IS_TOKEN(token,'('))
         {
+          // Every open parenthesis recurses, so limit the nesting.
+          if (paren_count >= 256)
+          {
+            print_error(asm_context, "Expression nested too deep");
+            return -1;
+          }
+
           if (parse_ifdef_expression(asm_context, &n, paren_count + 1, PREC_OR, 0) == -1)
           {
             return -1;
